@@ -20,7 +20,7 @@ pub struct Case {
     pub fam: &'static str,
 }
 
-fn to_json(c: &Case) -> Value {
+pub fn to_json(c: &Case) -> Value {
     json!({"version": c.version, "level": c.level.name(), "data_hex": hex(&c.data), "data_len": c.data.len(), "family": c.fam})
 }
 
